@@ -76,7 +76,7 @@ func C07Spec(quick bool) Spec {
 		tag    string
 	}
 	orders := []osel{{B, 2, true, "o4"}, {C, 1, true, "o5"}, {C, 2, true, "o6"}, {B, 3, false, "o7"}}
-	qtys := []string{Eps, "0.5", "1.5", "", "+eps"}
+	qtys := []string{Eps, "0.5", "1.5", "", "+eps", "=padded", "=sci"}
 	fees := []string{"absent", "zero", "floor-1", "floor", "large"}
 	for _, o := range orders {
 		for _, q := range qtys {
